@@ -412,6 +412,10 @@ class Result:
 
     def finish(self, level="proof", rule=""):
         wall = time.time() - self.t0
+        if level == "proof" and not self.obligations:
+            level = "other"
+            self.extra["explanation"] = ("no Lean property file for this id yet: this run compared the real engine with the compiled Lean model "
+                                         "(differential correspondence) and evaluated the direct oracle; " + rule)[:2000]
         for key, what in self.known_hits.items():
             print("KNOWN-FINDING: property=%s key=%s %s" % (self.pid, key, self.known.text(self.pid, key) or what))
         cov = {
